@@ -74,7 +74,24 @@ def placeAt {α : Type} (slots : List (Option α)) (i : Int) (x : α) : Option (
     | some none => some (slots.set i.toNat (some x))
     | _ => none
 
-/-- the innermost non-array `items` of an array schema (fuel bounds the descent) -/
+/-! ### the size of a schema: fuel that covers it (proved sufficient in Props.C20 `processField_total`) -/
+
+mutual
+  def Schema.size : Schema → Nat
+    | .mk _ _ _ p i => 1 + propsSize p + optSize i
+  def optSize : Option Schema → Nat
+    | none => 1
+    | some s => 1 + s.size
+  def propsSize : Option (List (String × Option Schema)) → Nat
+    | none => 1
+    | some l => 1 + listSize l
+  def listSize : List (String × Option Schema) → Nat
+    | [] => 1
+    | (_, so) :: r => 2 + optSize so + listSize r
+end
+
+/-- the innermost non-array `items` of an array schema (the Go loop has no bound; the fuel `processField` passes,
+    `max 64 (optSize items)`, exceeds the number of nested schemas, so the descent always reaches the innermost one) -/
 def innermostItems : Nat → Option Schema → Option Schema
   | 0, s => s
   | fuel + 1, some s => if s.type == "array" then innermostItems fuel s.items else some s
@@ -97,7 +114,7 @@ mutual
         let comps : Outcome (List Param) :=
           if s.type == "object" then buildParams fuel s.props
           else if s.type == "array" then
-            match (if Gen.FfiFacts.innermostItems then innermostItems 64 s.items else s.items) with
+            match (if Gen.FfiFacts.innermostItems then innermostItems (max 64 (optSize s.items)) s.items else s.items) with
             | none => if Gen.FfiFacts.guards then .err else .panic
             | some it => buildParams fuel it.props
           else .ok []
@@ -136,6 +153,10 @@ mutual
       | .panic => .panic
 end
 
+/-- the fuel `convertParam` runs `processField` with: never less than the 64 used before, and more than the size of
+    the schema (one unit per schema node and per object member) -/
+def fieldFuel (s : Option Schema) : Nat := max 64 (optSize s + 1)
+
 /-- `inputTypeValidForTypeComponent(schema, tc)` : true = valid -/
 def inputTypeValid (s : Schema) (t : Ty) : Bool :=
   let its : String := match s.oneOf with
@@ -154,7 +175,7 @@ def inputTypeValid (s : Schema) (t : Ty) : Bool :=
 def convertParam (metaOK : Bool) (name : String) (s : Option Schema) : Outcome Param :=
   if !metaOK then .err
   else
-    match processField 64 name s with
+    match processField (fieldFuel s) name s with
     | .ok p =>
       match parseParam p with
       | .ok t => match s with
